@@ -230,8 +230,26 @@ static void *cycle(void *arg)
   o.stop.first.action = REPROC_STOP_KILL;
   o.stop.first.timeout = REPROC_INFINITE;
   ST(j->phase, 1);
+  // every thread has its own signal mask (bits of its index over four harmless signals): a start must
+  // give back the mask of the thread that called it, not that of a sibling starting at the same moment
+  static const int masksigs[4] = { SIGUSR1, SIGUSR2, SIGHUP, SIGWINCH };
+  sigset_t mine, after;
+  pthread_sigmask(SIG_SETMASK, NULL, &mine);
+  for (int b = 0; b < 4; b++) {
+    if (((j->idx + 1) >> b) & 1) sigaddset(&mine, masksigs[b]);
+    else sigdelset(&mine, masksigs[b]);
+  }
+  pthread_sigmask(SIG_SETMASK, &mine, NULL);
   pthread_barrier_wait(&start_barrier);  // all threads start their child at the same moment
   int r = reproc_start(j->p, argv, o);
+  pthread_sigmask(SIG_SETMASK, NULL, &after);
+  for (int sg = 1; sg < 32; sg++)
+    if (sigismember(&mine, sg) != sigismember(&after, sg)) {
+      vio("signal-mask-crosstalk", j, "a concurrent reproc_start changed this thread's signal mask: signal %ld blocked before the call: %ld, after: %ld", sg,
+          sigismember(&mine, sg), sigismember(&after, sg));
+      pthread_sigmask(SIG_SETMASK, &mine, NULL);
+      break;
+    }
   if (r <= 0) {
     vio("start-failed", j, "reproc_start returned %ld", r, 0, 0);
     goto out;
